@@ -38,9 +38,14 @@ def family(rng, fam):
     return rng.choice([b"N.", b"K\x07.", b"I01\n.", b"I42\n.", b"].", b"\x88."])
 
 
+class _Keep(io.BytesIO):
+    def close(self):        # the CLI closes its output file; keep the bytes readable
+        pass
+
+
 class Out:
     def __init__(self):
-        self.buffer = io.BytesIO()
+        self.buffer = _Keep()
 
     def write(self, s):
         self.buffer.write(s.encode() if isinstance(s, str) else s)
